@@ -618,6 +618,7 @@ func main() {
 	runStream(c, "xrd", c.N(5000, 100000), 2, deriveCase(gold))
 	runStream(c, "pair", c.N(2000, 24000), 1, pairCase)
 	runStream(c, "collide", c.N(1000, 12000), 1, collideCase)
+	runStream(c, "controller", c.N(150, 3000), 0, controllerCase(gold))
 
 	if c.Only == "" {
 		for _, k := range []string{"machinery_props_compared_under_collision", "author_props_compared", "cel_rules_checked",
